@@ -907,6 +907,8 @@ func checkC14(c *vh.Ctx) {
 
 	// ------------------------------------------------------------ B: whole runs
 	c14Runs(c, metas)
+	c14RunSessions(c) // stage S: lines of one session, own arguments each, echoed through the daily output
+	c14BatchLineStage(c) // stage T: the line as read from a batch file by the binary, every white-space separator
 }
 
 func enumOfKey(metas []cfgMeta, key string) string {
